@@ -64,6 +64,48 @@ def coq_forest(root, U) -> str:
     return H.coq_list(coq_rt(c, U) for c in (root._children or []))
 
 
+def apply_mutation(tree, U, start, mut, typed):
+    """A change of the tree between two filter calls that keeps the node count.  Positions are indices into the
+    pre-order list of the nodes present at that moment (modulo its length); the start node of a branch case is never
+    moved or removed.  ["none"] | ["rename", [pos..], [label..]] | ["move", pos, target_pos|-1] | ["swap", pos, parent_pos|-1, label]"""
+    ns = B.all_nodes(tree._root)
+    kind = mut[0]
+    if kind == "none" or not ns:
+        return
+    kw = {"kind": "k0"} if typed else {}
+    if kind == "rename":
+        for pos, lab in zip(mut[1], mut[2]):
+            n = ns[pos % len(ns)]
+            try:
+                n.set_data(U.objs[lab])
+            except Exception:  # noqa: BLE001  (refused: e.g. a sibling already carries that data)
+                pass
+    elif kind == "move":
+        n = ns[mut[1] % len(ns)]
+        target = tree._root if mut[2] < 0 else ns[mut[2] % len(ns)]
+        if n is start or target is n or target is n._parent or (target is not tree._root and (target.is_descendant_of(n))):
+            return
+        try:
+            n.move_to(target if target is not tree._root else tree)
+        except Exception:  # noqa: BLE001
+            pass
+    elif kind == "swap":
+        n = ns[mut[1] % len(ns)]
+        if n is start or (start is not None and start.is_descendant_of(n)):
+            return
+        size = 1 + len(B.all_nodes(n))
+        if size != 1:
+            return          # only a leaf: one node out, one node in
+        parent = tree if mut[2] < 0 else ns[mut[2] % len(ns)]
+        if parent is n:
+            return
+        n.remove()
+        try:
+            parent.add(U.objs[mut[3]], **kw)
+        except Exception:  # noqa: BLE001
+            pass
+
+
 def sibling_groups(shape, all_groups=False):
     """pre-order indices of the members of every sibling list (top level included) with >= 2 members (or all lists)."""
     out = []
@@ -119,11 +161,16 @@ class Prop:
             "(d) TYPED: TypedTrees with kinds mixed among siblings (two patterns per shape; random kinds in the random tier), all "
             "verdict assignments on small shapes plus a stop answer at every position of every shape of 3-4 (quick) / 4-5 (thorough) nodes; "
             "the kinds of the copied nodes are observed and compared with the model (the scan re-creates nodes with the default kind "
-            "because add_child(n) is called without a kind, _add_from keeps kinds: a C07-family behaviour) but not judged by the C08 oracle; (c) CLONES: every pair of non-sibling nodes carrying one data object (parent/child included = the region where D24 makes the "
+            "because add_child(n) is called without a kind, _add_from keeps kinds: a C07-family behaviour) but not judged by the C08 oracle; (e) HISTORIES: one process, one predicate object: all forms on the tree (in-place filter last) -> a change that keeps the "
+            "node count (set_data of 1-2 nodes to fresh data objects / move_to / remove one leaf + add one node / no change of the tree "
+            "but of the answers) -> all forms again on the SAME tree with the SAME predicate object (answers looked up by data label) -> "
+            "optionally all forms on a SECOND tree that has as many nodes as the first one has then; every phase is compared with the model "
+            "on the tree as it is when the phase starts, and judged by the oracle; systematic on all shapes <= 3 (quick) / 4 (thorough) "
+            "nodes x every position, 200 / 800 random; (c) CLONES: every pair of non-sibling nodes carrying one data object (parent/child included = the region where D24 makes the "
             "copying form raise).  quick: (a) every ordered forest <= 3 nodes x all 6^n verdict assignments x all starts, 4-5 nodes "
             "sampled per (shape, start); (b) 2 nodes exhaustive, 3-4 nodes sampled; (c) 2 nodes exhaustive, 3 sampled; 300 random trees "
             "of 6-14 nodes with clones.  thorough: (a) <= 4 nodes exhaustive, 5 sampled; (b) <= 3 exhaustive, 4 sampled; (c) <= 3 "
-            "exhaustive, 4 sampled; 1200 random.  distinct = distinct (shape, labels, data_ids, verdicts, start); non-trivial = a "
+            "exhaustive, 4 sampled; 800 random.  distinct = distinct (shape, labels, data_ids, verdicts, start); non-trivial = a "
             "non-empty proper subset of the scanned nodes is kept")
     exhaustive_note = ("all forest shapes <= N nodes x all 6^n verdict assignments x all starts (N=3 quick, 4 thorough); with every sibling pair as "
                        "twins and every non-sibling pair as clones: N=2 quick, 3 thorough")
@@ -218,6 +265,62 @@ class Prop:
                             vs[p] = V_STOP
                             yield self._desc(nodes, n, vs, st, rng, typed=True)
 
+    def _hist_desc(self, nodes, n, start, rng, v1, v2, mut, tree2=None, typed=False, extra=3):
+        m = n + extra
+        return dict(univ=univ_for(m), nodes=nodes, start=start, **({"typed": True} if typed else {}),
+                    hist=dict(v1=list(v1), f1=[rng.randrange(len(FLAVOURS[c])) for c in v1],
+                              v2=list(v2), f2=[rng.randrange(len(FLAVOURS[c])) for c in v2], mut=mut, tree2=tree2))
+
+    def _hist_systematic(self, n, rng):
+        """filter (everything accepted) -> ONE node re-keyed (set_data to a fresh object) / moved / exchanged -> filter again
+        with the same predicate object, which rejects the new data: every shape, every position, three rejecting answers."""
+        for shape in H.forests(n):
+            nodes = B.shape_to_nodes(shape, lambda i, d, s: (i, None, None))
+            v1 = [V_TRUE] * n + [V_FALSE, V_FALSE, V_FALSE]
+            for pos in range(n):
+                for bad in (V_FALSE, V_SKIP, V_STOP):
+                    v2 = [V_TRUE] * n + [bad, bad, bad]
+                    yield self._hist_desc(nodes, n, None, rng, v1, v2, ["rename", [pos], [n]])
+                yield self._hist_desc(nodes, n, None, rng, v1, [V_TRUE] * n + [V_SKIP] * 3, ["swap", pos, -1, n + 2])
+            # the answers change (a predicate that reads something mutable), the tree does not
+            for pos in range(n):
+                v2 = [V_TRUE] * (n + 3)
+                v2[pos] = V_SKIP
+                yield self._hist_desc(nodes, n, None, rng, v1, v2, ["none"])
+
+    def _hist_random(self, rng, count):
+        for _ in range(count):
+            n = rng.randint(3, 8)
+            shape = H.random_shape(rng, n, deep=rng.choice([0.2, 0.5, 0.8]))
+            typed = rng.random() < 0.25
+            nodes = B.shape_to_nodes(shape, lambda i, d, s: (i, rng.choice(["k0", "k1"]) if typed else None, None))
+            flat = flatten(nodes)
+            cands = [i for i in range(n) if flat[i][1]]
+            start = rng.choice(cands) if cands and rng.random() < 0.3 else None
+            v1 = rng.choices(range(6), weights=[5, 3, 0.5, 0.5, 0.6, 0.2], k=n + 3)
+            if rng.random() < 0.5:      # same answers for the old data, new answers only for the new data
+                v2 = v1[:n] + rng.choices(range(6), weights=[1, 3, 2, 1, 1, 1], k=3)
+            else:
+                v2 = rng.choices(range(6), weights=[4, 3, 1, 1, 1, 0.5], k=n + 3)
+            r = rng.random()
+            if r < 0.45:
+                k = rng.randint(1, 2)
+                mut = ["rename", [rng.randrange(64) for _ in range(k)], [n, n + 1][:k]]
+            elif r < 0.65:
+                mut = ["move", rng.randrange(64), rng.choice([-1, rng.randrange(64)])]
+            elif r < 0.85:
+                mut = ["swap", rng.randrange(64), rng.choice([-1, rng.randrange(64)]), n + 2]
+            else:
+                mut = ["none"]
+            tree2 = None
+            if start is None and rng.random() < 0.4:   # a second tree of every possible size, labels = the same data objects
+                tree2 = {}
+                for size in range(1, n + 1):
+                    sh = H.random_shape(rng, size, deep=0.5)
+                    lab = rng.sample(range(n + 3), size)
+                    tree2[str(size)] = B.shape_to_nodes(sh, lambda i, d, s, lab=lab: (lab[i], "k0" if typed else None, None))
+            yield self._hist_desc(nodes, n, start, rng, v1, v2, mut, tree2, typed)
+
     def _exhaustive(self, n, rng, sample=None):
         for shape in H.forests(n):
             nodes = B.shape_to_nodes(shape, lambda i, d, s: (i, None, None))
@@ -270,7 +373,7 @@ class Prop:
             yield from self._exhaustive(4, rng, sample=30)
             yield from self._exhaustive(5, rng, sample=4)
         else:
-            yield from self._exhaustive(5, rng, sample=60)
+            yield from self._exhaustive(5, rng, sample=40)
         # equal-comparing siblings under distinct data_ids, clones in different parents: twins answered differently
         yield from self._twins(2, rng)
         if tier == "quick":
@@ -293,10 +396,18 @@ class Prop:
         else:
             yield from self._typed(2, rng)
             yield from self._typed(3, rng)
-            yield from self._typed(4, rng, sample=25)
+            yield from self._typed(4, rng, sample=15)
             yield from self._typed_stop(4, rng, reps=4)
             yield from self._typed_stop(5, rng, reps=1)
-        nrand = 300 if tier == "quick" else 1200
+        # histories: filter -> a change that keeps the node count -> filter again, SAME predicate object, same tree (and a second tree)
+        yield from self._hist_systematic(2, rng)
+        yield from self._hist_systematic(3, rng)
+        if tier == "quick":
+            yield from self._hist_random(rng, 200)
+        else:
+            yield from self._hist_systematic(4, rng)
+            yield from self._hist_random(rng, 800)
+        nrand = 300 if tier == "quick" else 800
         weights = [3, 4, 1, 1, 1, 0.4]
         for _ in range(nrand):
             n = rng.randint(6, 14)
@@ -313,6 +424,9 @@ class Prop:
             yield self._desc(nodes, n, vs, rng.choice(cands) if cands and rng.random() < 0.5 else None, rng, typed=typed)
 
     def shrink_candidates(self, desc):
+        if "hist" in desc:
+            yield from self._shrink_hist(desc)
+            return
         # drop a leaf / lift children (verdicts follow their nodes); then weaken verdicts to False
         n = len(desc["verdicts"])
         tagged = tag_nodes(desc["nodes"])
@@ -331,29 +445,90 @@ class Prop:
         if any(desc["flavours"]):
             yield dict(desc, flavours=[0] * n)
 
+    def _shrink_hist(self, desc):
+        h = desc["hist"]
+        if h.get("tree2"):
+            yield dict(desc, hist=dict(h, tree2=None))
+        if desc["start"] is None:
+            for cand in B.drop_one_node(desc["nodes"]):
+                yield dict(desc, nodes=cand)
+        for key in ("v1", "v2"):
+            for k, c in enumerate(h[key]):
+                if c != V_FALSE:
+                    vs = list(h[key]); vs[k] = V_FALSE
+                    fk = "f" + key[1]
+                    fl = list(h[fk]); fl[k] = 0
+                    yield dict(desc, hist=dict(h, **{key: vs, fk: fl}))
+        if h["mut"][0] == "rename" and len(h["mut"][1]) > 1:
+            yield dict(desc, hist=dict(h, mut=["rename", h["mut"][1][:1], h["mut"][2][:1]]))
+        # (the mutation itself is kept: a replay with a real change between the two calls says more)
+
     # ----- one case
     def run(self, desc) -> Case:
+        """One case = one or more PHASES on one process and one predicate object.  A plain desc has one phase.  A history
+        desc (desc["hist"]) has: phase 1 on the tree (all forms, the in-place filter last), then a mutation of the tree that
+        keeps the node count, then phase 2 (all forms again, SAME predicate object, answers looked up by data label in a table
+        the harness switches), then optionally phase 3 on a SECOND tree of the size the first tree has at that moment."""
         _BASE[0] = H.alloc_count()
-        tree, U = B.build(dict(typed=bool(desc.get("typed")), univ=desc["univ"], nodes=desc["nodes"]))
+        typed = bool(desc.get("typed"))
+        tree, U = B.build(dict(typed=typed, univ=desc["univ"], nodes=desc["nodes"]))
         nodes = B.all_nodes(tree._root)
-        vd = {nid(n): (desc["verdicts"][k], desc["flavours"][k]) for k, n in enumerate(nodes)}
         start = None if desc["start"] is None else nodes[desc["start"]]
+        hist = desc.get("hist")
+        cur = {"vd": {}}
+        log = []
+
+        def pred(node):          # ONE predicate object for all phases of the case
+            k = nid(node)
+            log.append(k)
+            code, fl = cur["vd"][k]
+            return FLAVOURS[code][fl]()
+
+        def by_label(ns, codes, fls):
+            return {nid(n): (codes[U.index(n._data)], fls[U.index(n._data)]) for n in ns}
+
+        if hist is None:
+            vd = {nid(n): (desc["verdicts"][k], desc["flavours"][k]) for k, n in enumerate(nodes)}
+        else:
+            vd = by_label(nodes, hist["v1"], hist["f1"])
+        phases = [self._phase(tree, U, typed, nodes, vd, start, pred, log, cur)]
+        if hist is not None:
+            apply_mutation(tree, U, start, hist["mut"], typed)
+            nodes2 = B.all_nodes(tree._root)
+            phases.append(self._phase(tree, U, typed, nodes2, by_label(nodes2, hist["v2"], hist["f2"]), start, pred, log, cur))
+            t2desc = (hist.get("tree2") or {}).get(str(len(tree)))
+            if t2desc is not None:      # a different tree with as many nodes as the first one has now, same predicate
+                tree2 = B.new_tree(dict(typed=typed))
+                B.add_nodes(tree2._root, t2desc, U, typed)
+                nodes3 = B.all_nodes(tree2._root)
+                phases.append(self._phase(tree2, U, typed, nodes3, by_label(nodes3, hist["v2"], hist["f2"]), None, pred, log, cur))
+        coq = H.coq_list(ph[0] for ph in phases)
+        obs = [ph[1] for ph in phases]
+        info = phases[0][4]
+        fails = [((ph[2] if k == 0 else f"phase {k + 1}: {ph[2]}"), ph[3]) for k, ph in enumerate(phases) if ph[2]]
+        untagged = [x for x in fails if x[1] is None]
+        fail, finding = (untagged or fails or [(None, None)])[0]      # an untagged failure wins over a D24-tagged one
+        nsc = info["scope"]
+        vkey = desc["verdicts"] if hist is None else [hist["v1"], hist["v2"], hist["mut"], sorted((hist.get("tree2") or {}).keys())]
+        return Case(desc=desc, coq_input=coq, impl_obs=obs, oracle_fail=fail, finding=finding,
+                    nontrivial=0 < info["kept"] < nsc,
+                    key=H.digest([shape_shape(desc["nodes"]), labels(desc["nodes"]), vkey, desc["start"]]),
+                    stats=dict(nodes=len(nodes), scope=nsc, kept=info["kept"], stop_hit=info["stop_hit"],
+                               start="tree" if start is None else "node", typed=typed, d24_leaves=info["d24"], d24_collision=info["d24_collision"],
+                               phases=len(phases), mutation="-" if hist is None else hist["mut"][0],
+                               raised=0 if hist is not None else sum(1 for k in range(len(nodes)) if desc["flavours"][k] in RAISED.get(desc["verdicts"][k], ()))))
+
+    def _phase(self, tree, U, typed, nodes, vd, start, pred, log, cur):
+        """All forms on the tree as it is now; returns (coq term, observation, oracle failure, finding, info)."""
+        cur["vd"] = vd
         coq = (f"({coq_forest(tree._root, U)}, "
                f"{H.coq_list(f'({nid(n)}, {COQ_RAW[vd[nid(n)][0]][vd[nid(n)][1]]})' for n in nodes)}, "
-               f"{'(@None Z)' if start is None else H.coq_opt(nid(start))}, {H.coq_bool(bool(desc.get('typed')))})")
+               f"{'(@None Z)' if start is None else H.coq_opt(nid(start))}, {H.coq_bool(typed)})")
 
         # snapshot of the source by pointers, taken before anything runs
         snap = {id(n): list(n._children or []) for n in [tree._root] + nodes}
         src_before = H.sx_forest(tree._root, U)
         snap["lab"] = {id(n): [U.index(n._data), H.sx_did(n._data_id)] for n in nodes}   # removed nodes lose their data
-
-        log = []
-
-        def pred(node):
-            k = nid(node)
-            log.append(k)
-            code, fl = vd[k]
-            return FLAVOURS[code][fl]()
 
         def copy_obs(fn):
             base = H.alloc_count()
@@ -409,13 +584,7 @@ class Prop:
 
         obs = [copies, src_shape_after, inplace, count, call_logs, nopred]
         fail, finding, info = self.oracle(tree, U, nodes, snap, vd, start, obs, new_trees, src_before, src_after)
-        nsc = info["scope"]
-        return Case(desc=desc, coq_input=coq, impl_obs=obs, oracle_fail=fail, finding=finding,
-                    nontrivial=0 < info["kept"] < nsc,
-                    key=H.digest([shape_shape(desc["nodes"]), labels(desc["nodes"]), desc["verdicts"], desc["start"]]),
-                    stats=dict(nodes=len(nodes), scope=nsc, kept=info["kept"], stop_hit=info["stop_hit"],
-                               start="tree" if start is None else "node", typed=bool(desc.get("typed")), d24_leaves=info["d24"], d24_collision=info["d24_collision"],
-                               raised=sum(1 for k in range(len(nodes)) if desc["flavours"][k] in RAISED.get(desc["verdicts"][k], ()))))
+        return coq, obs, fail, finding, info
 
     # ----- the property statement, executed on the pointer snapshot (not F's recursion)
     def oracle(self, tree, U, nodes, snap, vd, start, obs, new_trees, src_before, src_after):
